@@ -130,7 +130,22 @@ func (w *World) strField(tag string, rule int, limit int) string {
 		}
 		return base + strings.Repeat("x", n-len(base))
 	}
-	switch rule % 12 {
+	hex := func(prefix string, upper bool) string {
+		d := "a1B2c3D4e5F6"
+		if upper {
+			d = "A1B2C3D4E5F6"
+		}
+		out := prefix + fmt.Sprintf("%x", w.strCounter)
+		for len(out)+len(d) <= limit && len(out) < 66 {
+			out += d
+		}
+		return out
+	}
+	switch rule % 14 {
+	case 12:
+		return hex("0x", false) // prefixed hex in mixed case (what block explorers and checksummed encodings give)
+	case 13:
+		return hex("0X", true)
 	case 0, 6:
 		return base
 	case 1:
@@ -313,6 +328,8 @@ func (w *World) buildOp(op *Op) *BuiltOp {
 		if op.Kind == WrkReg {
 			gh := w.strField("gen", op.Str/144, 66)
 			typ := w.strField("typ", 0, 20)
+			// the base type is free text: the usual names, none at all, or anything else
+			typ = []string{typ, "geth", "", "evm", "tendermint", "ethereum", typ, "cosmos"}[w.strCounter%8]
 			if again != nil {
 				gh, typ = again.Fields[2], again.Fields[3]
 			}
@@ -639,6 +656,14 @@ func (w *World) buildOp(op *Op) *BuiltOp {
 		b.Msg = &banktypes.MsgSend{FromAddress: b.Named.Str(false), ToAddress: to.Str(op.Upper), Amount: sdk.Coins{sdk.Coin{Denom: denom, Amount: toInt(amt)}}}
 		b.StreamR = to
 		b.Desc = fmt.Sprintf("bank send %s->%s %s%s", b.Named.Name, to.Name, amt, denom)
+	case BankSendEnabled:
+		setParties(w.acct(0))
+		gov := w.addrName("gov")
+		b.Signer, b.Named = gov, gov
+		b.Module = "bank"
+		denom := w.denomSel(op.Denom)
+		b.Msg = &banktypes.MsgSetSendEnabled{Authority: gov.Bytes.String(), SendEnabled: []*banktypes.SendEnabled{{Denom: denom, Enabled: op.Flag}}}
+		b.Desc = fmt.Sprintf("bank send-enabled %s=%v", denom, op.Flag)
 	case StakeDeleg:
 		setParties(w.acct(op.Peer))
 		b.Module = "staking"
